@@ -68,6 +68,11 @@ def events(seed=0):
                    Strand.from_int(s.value).to_symbol()])
         for o in Strand:
             ev.append(["srel", s.to_symbol(), o.to_symbol(), s.relative_to(o).to_symbol()])
+            # the enumeration is ordered (locations sort by it): the six comparison operators, and min / max / sorted,
+            # describe ONE total order
+            ev.append(["sord", s.to_symbol(), o.to_symbol(), bool(s < o), bool(s > o), bool(s <= o), bool(s >= o),
+                       bool(s == o), bool(s != o), min(s, o).to_symbol(), max(s, o).to_symbol(),
+                       [x.to_symbol() for x in sorted([s, o])], hash(s) == hash(o)])
     names = list(Biotype.__members__)
     for a in names:
         for b in names:
